@@ -88,6 +88,7 @@ impl Oracle {
             }
         };
         ctx.stats.probe("tampered_verifications");
+        ctx.stats.state(crate::choices::mix(crate::choices::str_hash(what), verdict as u64));
         // the statement this (possibly tampered) tuple claims
         let stmt = combined(pk, md).map(|pt| (pt, *p, *q, *c, *s));
         let honest = stmt.map(|st| self.honest.contains(&st)).unwrap_or(false);
@@ -256,7 +257,7 @@ impl Property for C13 {
         "C (randomness service), verifiable mode, with a tampering wire"
     }
     fn rule(&self) -> &'static str {
-        "one run = a world-C history in verifiable mode (1..3 servers with own keys, several tags, clients, dup/reorder/replay so duplicated requests yield interchangeable evaluations). Completeness: every honest response verifies after crossing as JSON (evaluation) and bincode (public key). Soundness: for every honest (pk, P, Q, tag, c, s) the enumerated tamper set replaces ONE component by (a) the same-typed component of other exchanges of the history (output, input, proof, c, s, whole response = misdelivery, public key, tag, verbatim replay), (b) a neighbour (scalar +-1, point + G, one drawn bit of each encoding, other registered tag, unregistered tag, pk base + G, tag entry + G, swapped tag entries) or (c) identity / zero; verify must be false unless the resulting (statement, proof) pair was honestly issued. Nonce: the commitments s*G + c*PK_tag of all issued proofs are pairwise distinct. non-trivial = >= 2 exchanges and tampered tuples rejected"
+        "one run = a world-C history in verifiable mode (1..3 servers with own keys, several tags, clients, dup/reorder/replay so duplicated requests yield interchangeable evaluations). Completeness: every honest response verifies after crossing as JSON (evaluation) and bincode (public key). Soundness: for every honest (pk, P, Q, tag, c, s) the enumerated tamper set replaces ONE component by (a) the same-typed component of other exchanges of the history (output, input, proof, c, s, whole response = misdelivery, public key, tag, verbatim replay), (b) a neighbour (scalar +-1, point + G, one drawn bit of each encoding, other registered tag, unregistered tag, pk base + G, tag entry + G, swapped tag entries) or (c) identity / zero; verify must be false unless the resulting (statement, proof) pair was honestly issued. Nonce: the commitments s*G + c*PK_tag of all issued proofs are pairwise distinct. non-trivial = >= 2 exchanges and tampered tuples rejected; states = (tamper kind, verdict) cells"
     }
     fn runs(&self, thorough: bool) -> u64 {
         if thorough { 40_000 } else { 800 }
